@@ -82,21 +82,51 @@ theorem lapDet_eq : ∀ (n : Nat) (A : Mat α n n), lapDet n A = (toM A).det
 
 end det
 
-/-- Eigen's LDLᵀ contract `A = Pᵀ L D Lᵀ P` with `D ≥ 0` makes the factor the code builds,
-    `Pᵀ L √D`, a square root of `A` (no definiteness: positive *semi*-definite `A` included). -/
-theorem ldlt_factor {n : Type*} [Fintype n] [DecidableEq n] (A L Pm : Matrix n n ℝ) (d : n → ℝ)
-    (hd : ∀ i, 0 ≤ d i) (h : A = Pmᵀ * L * diagonal d * Lᵀ * Pm) :
-    (Pmᵀ * L * diagonal (fun i => Real.sqrt (d i))) *
-      (Pmᵀ * L * diagonal (fun i => Real.sqrt (d i)))ᵀ = A := by
-  have hdd : diagonal (fun i => Real.sqrt (d i)) * diagonal (fun i => Real.sqrt (d i)) = diagonal d := by
+/-- The factor the code builds from Eigen's LDLᵀ after fix 5d4e99d, `S = Pᵀ L √(max(D, 0))`
+    (rounding-negative pivots are clamped before the square root): whatever the pivots,
+    `S Sᵀ = Pᵀ L max(D, 0) Lᵀ P`. -/
+theorem ldlt_factor_clamped {n : Type*} [Fintype n] [DecidableEq n] (L Pm : Matrix n n ℝ) (d : n → ℝ) :
+    (Pmᵀ * L * diagonal (fun i => Real.sqrt (max (d i) 0))) *
+      (Pmᵀ * L * diagonal (fun i => Real.sqrt (max (d i) 0)))ᵀ
+      = Pmᵀ * L * diagonal (fun i => max (d i) 0) * Lᵀ * Pm := by
+  have hdd : diagonal (fun i => Real.sqrt (max (d i) 0)) * diagonal (fun i => Real.sqrt (max (d i) 0))
+      = diagonal (fun i => max (d i) 0) := by
     rw [diagonal_mul_diagonal]
     congr 1
     funext i
-    exact Real.mul_self_sqrt (hd i)
-  rw [h, transpose_mul, transpose_mul, transpose_transpose, diagonal_transpose]
-  calc Pmᵀ * L * diagonal (fun i => Real.sqrt (d i)) * (diagonal (fun i => Real.sqrt (d i)) * (Lᵀ * Pm))
-      = Pmᵀ * L * (diagonal (fun i => Real.sqrt (d i)) * diagonal (fun i => Real.sqrt (d i))) * Lᵀ * Pm := by
+    exact Real.mul_self_sqrt (le_max_right _ _)
+  rw [transpose_mul, transpose_mul, transpose_transpose, diagonal_transpose]
+  calc Pmᵀ * L * diagonal (fun i => Real.sqrt (max (d i) 0)) * (diagonal (fun i => Real.sqrt (max (d i) 0)) * (Lᵀ * Pm))
+      = Pmᵀ * L * (diagonal (fun i => Real.sqrt (max (d i) 0)) * diagonal (fun i => Real.sqrt (max (d i) 0))) * Lᵀ * Pm := by
         simp only [Matrix.mul_assoc]
-    _ = Pmᵀ * L * diagonal d * Lᵀ * Pm := by rw [hdd]
+    _ = Pmᵀ * L * diagonal (fun i => max (d i) 0) * Lᵀ * Pm := by rw [hdd]
+
+/-- With Eigen's LDLᵀ contract `A = Pᵀ L D Lᵀ P`: the clamped factor satisfies
+    `S Sᵀ = A + Pᵀ L max(−D, 0) Lᵀ P` — exactly `A` when `D ≥ 0` (next theorem), and `A` plus the
+    clamped-away negative part (of the size of the rounding error) otherwise. -/
+theorem ldlt_factor_clamped_excess {n : Type*} [Fintype n] [DecidableEq n] (A L Pm : Matrix n n ℝ) (d : n → ℝ)
+    (h : A = Pmᵀ * L * diagonal d * Lᵀ * Pm) :
+    (Pmᵀ * L * diagonal (fun i => Real.sqrt (max (d i) 0))) *
+      (Pmᵀ * L * diagonal (fun i => Real.sqrt (max (d i) 0)))ᵀ
+      = A + Pmᵀ * L * diagonal (fun i => max (-(d i)) 0) * Lᵀ * Pm := by
+  have hsplit : diagonal (fun i => max (d i) 0) = diagonal d + diagonal (fun i => max (-(d i)) 0) := by
+    rw [diagonal_add]
+    congr 1
+    funext i
+    rcases le_total 0 (d i) with hi | hi
+    · rw [max_eq_left hi, max_eq_right (by linarith)]; simp
+    · rw [max_eq_right hi, max_eq_left (by linarith)]; simp
+  rw [ldlt_factor_clamped, hsplit, h]
+  simp only [Matrix.mul_add, Matrix.add_mul]
+
+/-- Eigen's LDLᵀ contract `A = Pᵀ L D Lᵀ P` with `D ≥ 0` makes the (clamped) factor a square root of
+    `A` (no definiteness: positive *semi*-definite `A` included). -/
+theorem ldlt_factor {n : Type*} [Fintype n] [DecidableEq n] (A L Pm : Matrix n n ℝ) (d : n → ℝ)
+    (hd : ∀ i, 0 ≤ d i) (h : A = Pmᵀ * L * diagonal d * Lᵀ * Pm) :
+    (Pmᵀ * L * diagonal (fun i => Real.sqrt (max (d i) 0))) *
+      (Pmᵀ * L * diagonal (fun i => Real.sqrt (max (d i) 0)))ᵀ = A := by
+  rw [ldlt_factor_clamped, h]
+  have : (fun i => max (d i) 0) = d := by funext i; exact max_eq_left (hd i)
+  rw [this]
 
 end BFL.GPFProofs
